@@ -212,6 +212,9 @@ ATOMS = {
     "nel_comment": dict(codes=["undefined_name"], lines=["# note \x85 here {n}", "print(undefined_{n})"], simple=False),
     "ls_str": dict(codes=["undefined_name"], lines=["ls_{n} = \"a\u2028b\x1cc\x0bd\"", "print(ls_{n}, undefined_{n})"], simple=False),
     "nonascii_before": dict(codes=["undefined_name"], lines=["print(\"h\u00e9llo w\u00f6rld \u4e16\u754c {n}\", undefined_{n})"], simple=True),
+    # two codes on one line of which one NAME contains the other (undefined_name inside
+    # possibly_undefined_name): comments must be matched by code, not by substring
+    "substring_codes": dict(codes=["possibly_undefined_name", "undefined_name"], lines=["if p:", "    maybe_{n} = {n}", "print(maybe_{n}, undefined_{n})"], simple=False),
     "possibly_undef": dict(codes=["possibly_undefined_name"], lines=["if p:", "    maybe_{n} = {n}", "print(maybe_{n})"], simple=False),
 }
 
